@@ -20,8 +20,12 @@ type guardFact struct {
 	Pos        string `json:"pos"`
 	Guard      string `json:"guard"` // position and text of the guard, "" if none
 	FirstWrite string `json:"first_write"`
-	OK         bool   `json:"ok"`
-	Why        string `json:"why"`
+	// Subject: what the guard tests — `raw` (the marker record itself, as read from the store, compared with nil),
+	// `decoded` (a value decoded from the record; `decoded-error-ignored` when a failing read counts as absent),
+	// `derived` (a number or length computed from stored data: absent and zero/empty are confused)
+	Subject string `json:"guard_subject"`
+	OK      bool   `json:"ok"`
+	Why     string `json:"why"`
 }
 
 var alreadyRe = regexp.MustCompile(`(?i)(had|has) been (initialized|synced)|already (set|initialized|exist)`)
@@ -43,6 +47,7 @@ func genesisGuards(a *an, tinfos []*pkgInfo) {
 				recv := a.src(fd.Recv.List[0].Type)
 				fact := guardFact{Router: strings.TrimPrefix(pi.Path, pre) + ":" + strings.TrimPrefix(recv, "*"), Pos: a.pos(fd.Pos())}
 				var guardPos, writePos token.Pos
+				var guardCond ast.Expr
 				ast.Inspect(fd.Body, func(n ast.Node) bool {
 					switch x := n.(type) {
 					case *ast.IfStmt:
@@ -50,6 +55,10 @@ func genesisGuards(a *an, tinfos []*pkgInfo) {
 							for _, st := range x.Body.List {
 								if r, ok := st.(*ast.ReturnStmt); ok && alreadyRe.MatchString(a.src(r)) {
 									guardPos = x.Pos()
+									guardCond = x.Cond
+									if as, ok := x.Init.(*ast.AssignStmt); ok { // `if v, err := f(); cond`
+										guardCond = &ast.BinaryExpr{X: x.Cond, Op: token.LAND, Y: &ast.BasicLit{Kind: token.STRING, Value: "\"init: " + a.src(as) + "\""}}
+									}
 									fact.Guard = a.pos(x.Pos()) + ": if " + a.src(x.Cond) + " { " + a.src(r) + " }"
 								}
 							}
@@ -59,6 +68,10 @@ func genesisGuards(a *an, tinfos []*pkgInfo) {
 								for _, st := range eb.List {
 									if r, ok := st.(*ast.ReturnStmt); ok && alreadyRe.MatchString(a.src(r)) {
 										guardPos = x.Pos()
+										guardCond = x.Cond
+										if as, ok := x.Init.(*ast.AssignStmt); ok {
+											guardCond = &ast.BinaryExpr{X: x.Cond, Op: token.LAND, Y: &ast.BasicLit{Kind: token.STRING, Value: "\"init: " + a.src(as) + "\""}}
+										}
 										fact.Guard = a.pos(x.Pos()) + ": if " + a.src(x.Cond) + " { .. } else { " + a.src(r) + " }"
 									}
 								}
@@ -79,9 +92,14 @@ func genesisGuards(a *an, tinfos []*pkgInfo) {
 					}
 					return true
 				})
+				if guardPos != token.NoPos {
+					fact.Subject = guardSubject(a, fd, guardCond)
+				}
 				switch {
 				case guardPos == token.NoPos:
 					fact.Why = "no statement returns an `already initialized` error"
+				case fact.Subject == "derived":
+					fact.Why = "the guard tests a derived value (`" + a.src(guardCond) + "`), not the presence of the marker record"
 				case writePos != token.NoPos && writePos < guardPos:
 					fact.Why = "a storing call precedes the guard"
 				default:
@@ -96,4 +114,62 @@ func genesisGuards(a *an, tinfos []*pkgInfo) {
 	b, _ := json.MarshalIndent(map[string]interface{}{"installers": facts}, "", " ")
 	os.Stdout.Write(b)
 	os.Stdout.WriteString("\n")
+}
+
+var derivedRe = regexp.MustCompile(`[^!=<>]([<>]=?)[^=]|len\(|\.Cmp\(|\.Sign\(`)
+
+// guardSubject classifies what the once-only guard looks at.
+func guardSubject(a *an, fd *ast.FuncDecl, cond ast.Expr) string {
+	text := a.src(cond)
+	if derivedRe.MatchString(text) {
+		return "derived"
+	}
+	// identifiers compared with nil in the condition
+	var subjects []string
+	ast.Inspect(cond, func(n ast.Node) bool {
+		if be, ok := n.(*ast.BinaryExpr); ok && (be.Op == token.NEQ || be.Op == token.EQL) {
+			if id, ok := be.X.(*ast.Ident); ok && a.src(be.Y) == "nil" && id.Name != "err" {
+				subjects = append(subjects, id.Name)
+			}
+		}
+		if id, ok := n.(*ast.Ident); ok && id.Name != "err" && id.Name != "nil" && len(subjects) == 0 {
+			if _, isBin := cond.(*ast.Ident); isBin { // `if stored {`
+				subjects = append(subjects, id.Name)
+			}
+		}
+		return true
+	})
+	raw, ignored := false, strings.Contains(text, "err == nil")
+	ast.Inspect(fd.Body, func(n ast.Node) bool {
+		as, ok := n.(*ast.AssignStmt)
+		if !ok || len(as.Rhs) != 1 {
+			return true
+		}
+		for i, lh := range as.Lhs {
+			id, ok := lh.(*ast.Ident)
+			if !ok {
+				continue
+			}
+			for _, sname := range subjects {
+				if id.Name == sname && i == 0 {
+					if strings.Contains(a.src(as.Rhs[0]), "GetCacheDB().Get(") {
+						raw = true
+					}
+					if len(as.Lhs) == 2 {
+						if e, ok := as.Lhs[1].(*ast.Ident); ok && e.Name == "_" {
+							ignored = true
+						}
+					}
+				}
+			}
+		}
+		return true
+	})
+	switch {
+	case raw:
+		return "raw"
+	case ignored:
+		return "decoded-error-ignored"
+	}
+	return "decoded"
 }
